@@ -139,35 +139,9 @@ def _enclosing_for(fn, node, par):
 
 
 def _doms(fn, node):
-    """dominating (text, truth) pairs incl. earlier `if t: return ...` statements whose every path returns"""
-    par = _parents(fn)
-    out = []
-    for test, truth in dominating_tests_raw(fn, _stmt_of(fn, node)):
-        t, tr = test, truth
-        while isinstance(t, ast.UnaryOp) and isinstance(t.op, ast.Not):
-            t, tr = t.operand, not tr
-        out.append((norm(t), tr))
-    # earlier sibling ifs whose body always returns (not only last-statement returns): `if join_fired: if ...: return; return`
-    stmt = _stmt_of(fn, node)
-    cur = stmt
-    while id(cur) in par:
-        p = par[id(cur)]
-        for fld in ("body", "orelse"):
-            blk = getattr(p, fld, None)
-            if isinstance(blk, list) and any(cur is x for x in blk):
-                for s in blk:
-                    if s is cur:
-                        break
-                    if isinstance(s, ast.If) and not s.orelse and _always_returns(s.body):
-                        t, tr = s.test, False
-                        while isinstance(t, ast.UnaryOp) and isinstance(t.op, ast.Not):
-                            t, tr = t.operand, not tr
-                        if (norm(t), tr) not in out:
-                            out.append((norm(t), tr))
-        cur = p
-        if cur is fn:
-            break
-    return out
+    """canonical (text, truth) facts that hold wherever node is reached (sa/dom.py)"""
+    from ..dom import conditions_at
+    return sorted(conditions_at(fn, node))
 
 
 def _always_returns(stmts) -> bool:
